@@ -19,6 +19,8 @@ Inductive obs :=
 | ODisp (i : item)            (* item i received a dispose() call *)
 | ORun                        (* Disposable: the action was invoked *)
 | ORaise                      (* Exception("Disposable has already been assigned") escaped *)
+| ORej (i : item)             (* the same exception, naming the item whose assignment was rejected
+                                 (used by the concurrent models, whose log is not grouped per call) *)
 | OSched                      (* ScheduledDisposable: scheduler.schedule(action) was called *)
 | OBool (b : bool)            (* returned bool (remove, contains, is_disposed) *)
 | OItem (o : option item)     (* returned item (get_disposable) *)
@@ -32,6 +34,7 @@ Definition obs_eqb (a b : obs) : bool :=
   | ODisp i, ODisp j => Nat.eqb i j
   | ORun, ORun => true
   | ORaise, ORaise => true
+  | ORej i, ORej j => Nat.eqb i j
   | OSched, OSched => true
   | OBool x, OBool y => Bool.eqb x y
   | OItem x, OItem y => item_opt_eqb x y
@@ -219,7 +222,8 @@ Definition sch_step (s : schstate) (o : schop) : schstate * list obs :=
   | SchRunOne =>
       match sch_queue s with
       | O => (s, [])                                   (* nothing queued: the scheduler has nothing to run *)
-      | S q => let '(inner, out) := sad_step (sch_inner s) SDispose in (SchState inner q, out)
+      | S q => let '(inner, out) := sad_step (sch_inner s) SDispose in (SchState inner q, ORun :: out)
+                                                       (* the scheduler invokes the queued action *)
       end
   | SchIsDisposed => (s, [OBool (s_disposed (sch_inner s))])
   end.
